@@ -63,6 +63,9 @@ pub struct Config {
     foreign: Vec<Vec<Op>>,
     max_actions: usize,
     final_code: i32,
+    /// use `SystemRunner::run()` (Ok iff the code is 0) instead of `run_with_code()`
+    #[serde(default)]
+    use_run: bool,
 }
 
 #[derive(Serialize, Deserialize, Clone, Debug, PartialEq)]
@@ -768,7 +771,22 @@ fn sim_thread(sim: Arc<Sim>, cfg: Config) {
         sim.yield_now();
     }
 
-    let res = runner.run_with_code();
+    let res: std::io::Result<i32> = if cfg.use_run {
+        // `run` turns a non-zero code into an error; mapped back to a code for the common check
+        match runner.run() {
+            Ok(()) => Ok(0),
+            Err(e) => {
+                let first = sim.st.lock().unwrap().first_stop.map(|s| s.1);
+                sim.st.lock().unwrap().events.push("run() returned an error".to_string());
+                match first {
+                    Some(c) if c != 0 => Ok(c),
+                    _ => Err(e),
+                }
+            }
+        }
+    } else {
+        runner.run_with_code()
+    };
     {
         let mut st = sim.st.lock().unwrap();
         evpush(&mut st.events, format!("run_with_code -> {res:?}"));
@@ -996,7 +1014,7 @@ impl Engine for RtSim {
         main_ops.extend(gen_ops(rng, n_main, true, c10));
         let nf = rng.range(1, 2) as usize;
         let foreign = (0..nf).map(|_| { let n = rng.range(0, 7) as usize; gen_ops(rng, n, false, c10) }).collect();
-        Config { main_ops, foreign, max_actions: rng.range(50, 600) as usize, final_code: *rng.pick(&[0, 3]) }
+        Config { main_ops, foreign, max_actions: rng.range(50, 600) as usize, final_code: *rng.pick(&[0, 3]), use_run: rng.chance(1, 4) }
     }
     fn max_actions(_: &str, cfg: &Config) -> usize {
         cfg.max_actions
